@@ -177,6 +177,45 @@ func dptOps(name string, fill byte) []concOp {
 			}
 			return hex.EncodeToString(d.Pack())
 		}},
+		// a telegram that is one octet short: rejected - and whatever the decoder does on its way
+		// out must not show in anybody's later decoding
+		{fmt.Sprintf("Produce(%q)+Unpack(%s minus the last octet)", name, px), func() string {
+			d, ok := dpt.Produce(name)
+			if !ok || len(payload) == 0 {
+				return "unknown"
+			}
+			if err := d.Unpack(payload[:len(payload)-1]); err != nil {
+				return "error " + err.Error()
+			}
+			return "accepted " + hex.EncodeToString(d.Pack())
+		}},
+		{fmt.Sprintf("Produce(%q)+Unpack(%s)+Pack again", name, px), func() string {
+			d, ok := dpt.Produce(name)
+			if !ok {
+				return "unknown"
+			}
+			if err := d.Unpack(payload); err != nil {
+				return "error " + err.Error()
+			}
+			return hex.EncodeToString(d.Pack()) + " " + fmt.Sprint(d)
+		}},
+	}
+}
+
+// concDPTSame: every worker decodes the same structured types (colours, xyY, date and time, texts),
+// each its own payloads: decoders of one type - and of types that share a helper - run side by side.
+func concDPTSame(n int) func() [][]concOp {
+	names := []string{"232.600", "251.600", "242.600", "19.001", "16.000", "28.001"}
+	return func() [][]concOp {
+		var ps [][]concOp
+		for i := 0; i < n; i++ {
+			var p []concOp
+			for k := range names {
+				p = append(p, dptOps(names[(k+i)%len(names)], byte(1+i))...)
+			}
+			ps = append(ps, p)
+		}
+		return ps
 	}
 }
 
@@ -333,6 +372,7 @@ func init() {
 		reg("both", prop+"-concurrent-datapoint-codecs-2", prop, 2, 0, concDPT(2))
 		reg("both", prop+"-concurrent-datapoint-codecs-3", prop, 1, 0, concDPT(3))
 		reg("both", prop+"-concurrent-all-registered-types", prop, 0, -1, concDPTAll)
+		reg("both", prop+"-concurrent-same-structured-types-2", prop, 2, 0, concDPTSame(2))
 	}
 	for _, prop := range []string{"C01", "C02", "C11", "C15"} {
 		reg("both", prop+"-concurrent-frame-codecs-2", prop, 1, 0, concFrames(2))
